@@ -114,6 +114,25 @@ def replay_cases(recs):
                     ("AQUA.updateIMU[after an explicit dt]", lambda: twice(F.AQUA(Dt=dt), lambda o, q_, d_: o.updateIMU(q_, gyr, zero) if d_ is None else o.updateIMU(q_, gyr, zero, dt=d_), conj=True), want),
                     ("AQUA.updateMARG[after an explicit dt]", lambda: twice(F.AQUA(Dt=dt), lambda o, q_, d_: o.updateMARG(q_, gyr, zero, mg) if d_ is None else o.updateMARG(q_, gyr, zero, mg, dt=d_), conj=True), want),
                 ]
+                # the step size reaches the same first-order step however it is handed over: Dt=, frequency=, or per call on an object
+                # built with another step size; ROLEQ's complete update dead-reckons when both observations are null
+                fcj = fq.copy() * cj
+                for how, mk, kw in (("Dt=", lambda C: C(Dt=dt), {}), ("frequency=", lambda C: C(frequency=1.0 / dt), {}),
+                                    ("per-call dt", lambda C: C(), {"dt": dt}), ("per-call dt on Dt=other", lambda C: C(Dt=other_dt), {"dt": dt})):
+                    if how != "Dt=":
+                        routes += [
+                            ("Madgwick.updateIMU[%s]" % how, lambda mk=mk, kw=kw: mk(F.Madgwick).updateIMU(fq.copy(), gyr, zero, **kw), want),
+                            ("Madgwick.updateMARG[%s]" % how, lambda mk=mk, kw=kw: mk(F.Madgwick).updateMARG(fq.copy(), gyr, zero, mg, **kw), want),
+                            ("Mahony.updateIMU[%s]" % how, lambda mk=mk, kw=kw: mk(F.Mahony).updateIMU(fq.copy(), gyr, zero, **kw), want),
+                            ("Mahony.updateMARG[%s]" % how, lambda mk=mk, kw=kw: mk(F.Mahony).updateMARG(fq.copy(), gyr, zero, mg, **kw), want),
+                            ("AQUA.updateIMU[%s]" % how, lambda mk=mk, kw=kw: mk(F.AQUA).updateIMU(fcj.copy(), gyr, zero, **kw) * cj, want),
+                            ("AQUA.updateMARG[%s]" % how, lambda mk=mk, kw=kw: mk(F.AQUA).updateMARG(fcj.copy(), gyr, zero, mg, **kw) * cj, want),
+                        ]
+                    routes += [
+                        ("ROLEQ.update[null observations, %s]" % how, lambda mk=mk, kw=kw: mk(F.ROLEQ).update(fq.copy(), gyr, zero, zero, **kw), want),
+                        ("ROLEQ.update[null accelerometer, %s]" % how, lambda mk=mk, kw=kw: mk(F.ROLEQ).update(fq.copy(), gyr, zero, mg, **kw), want),
+                    ]
+                routes.append(("ROLEQ.update[after an explicit dt]", lambda: twice(F.ROLEQ(Dt=dt), lambda o, q_, d_: o.update(q_, gyr, zero, zero) if d_ is None else o.update(q_, gyr, zero, zero, dt=d_)), want))
                 for name, fn, wv in routes:
                     t.calls += 1
                     o = core.outcome(fn)
@@ -154,6 +173,86 @@ def replay_cases(recs):
                 t.fail("C08|AngularRate(gyr, series).Q|order-%s|not-the-partial-sum" % ("0-1" if K <= 1 else ">=2"), {"q": q, "w": w, "d": d, "order": K, "got": ob[1], "want": want})
         if len(t.samples) < 3 and kind not in [s.get("kind") for s in t.samples]:
             t.samples.append(r)
+    return t
+
+
+def _fo(q, w, dt):
+    """float image of Integrator!FirstOrder (each exact single step is already compared with TLC's integers in replay_cases)"""
+    p = np.array([-w[0] * q[1] - w[1] * q[2] - w[2] * q[3],
+                  w[0] * q[0] + w[2] * q[2] - w[1] * q[3],
+                  w[1] * q[0] - w[2] * q[1] + w[0] * q[3],
+                  w[2] * q[0] + w[1] * q[1] - w[0] * q[2]])
+    r = q + 0.5 * dt * p
+    return r / np.linalg.norm(r)
+
+
+def _closed(q, w, dt):
+    n = float(np.linalg.norm(w))
+    h = 0.5 * n * dt
+    r = np.array([math.cos(h), *(math.sin(h) * np.asarray(w) / n)])
+    a, b = q, r
+    return np.array([a[0] * b[0] - a[1] * b[1] - a[2] * b[2] - a[3] * b[3],
+                     a[0] * b[1] + a[1] * b[0] + a[2] * b[3] - a[3] * b[2],
+                     a[0] * b[2] - a[1] * b[3] + a[2] * b[0] + a[3] * b[1],
+                     a[0] * b[3] + a[1] * b[2] - a[2] * b[1] + a[3] * b[0]])
+
+
+CJ = np.array([1.0, -1.0, -1.0, -1.0])
+MG = np.array([20.0, 1.0, 40.0])
+Z3 = np.zeros(3)
+# (name, class, call(obj, q, w, **dt) -> q, conjugate convention?, model)
+STEP_OBJECTS = [
+    ("Madgwick.updateIMU", lambda: F.Madgwick, lambda o, q, w, **k: o.updateIMU(q, w, Z3, **k), False, _fo),
+    ("Madgwick.updateMARG", lambda: F.Madgwick, lambda o, q, w, **k: o.updateMARG(q, w, Z3, MG, **k), False, _fo),
+    ("Mahony.updateIMU", lambda: F.Mahony, lambda o, q, w, **k: o.updateIMU(q, w, Z3, **k), False, _fo),
+    ("Mahony.updateMARG", lambda: F.Mahony, lambda o, q, w, **k: o.updateMARG(q, w, Z3, MG, **k), False, _fo),
+    ("AQUA.updateIMU", lambda: F.AQUA, lambda o, q, w, **k: o.updateIMU(q, w, Z3, **k), True, _fo),
+    ("AQUA.updateMARG", lambda: F.AQUA, lambda o, q, w, **k: o.updateMARG(q, w, Z3, MG, **k), True, _fo),
+    ("ROLEQ.update[null observations]", lambda: F.ROLEQ, lambda o, q, w, **k: o.update(q, w, Z3, Z3, **k), False, _fo),
+    ("AngularRate.update(closed)", lambda: F.AngularRate, lambda o, q, w, **k: o.update(q, w, method="closed", **k), False, _closed),
+    ("AngularRate.update(series,1)", lambda: F.AngularRate, lambda o, q, w, **k: o.update(q, w, method="series", order=1, **k), False, _fo),
+]
+
+
+def replay_schedules(recs):
+    """StepSource behaviours: one live object per schedule, each call compared with the step over the size the specification says it uses"""
+    t = Tally()
+    w = np.array([0.7, -1.1, 2.3])
+    q0 = g_unit((3, 1, -2, 1))
+    for ri, r in enumerate(recs):
+        base = (2e-3, 1.0 / 120.0, 1e-2)[ri % 3]
+        own, how, calls, used = r["own"], r["how"], list(r["calls"]), list(r["used"])
+        t.keys.add(("schedule", own, how, tuple(calls)))
+        for name, cls, call, conj, model in STEP_OBJECTS:
+            def go():
+                obj = cls()(Dt=own * base) if how == "Dt" else cls()(frequency=1.0 / (own * base))
+                q = q0.copy()
+                outs = []
+                for a in calls:
+                    kw = {} if a == 0 else {"dt": a * base}
+                    q_in = q * CJ if conj else q.copy()
+                    out = np.asarray(call(obj, q_in, w.copy(), **kw), dtype=float)
+                    q = out * CJ if conj else out
+                    outs.append(q.copy())
+                return outs, float(obj.Dt)
+            t.calls += len(calls)
+            o = core.outcome(go)
+            if o[0] != "ok":
+                t.fail("C08|%s|schedule|raises-%s" % (name, o[1]), {"schedule": r, "base": base, "err": o[2]})
+                continue
+            outs, own_after = o[1]
+            q = q0.copy()
+            for i, u in enumerate(used):
+                q = model(q, w, u * base)
+                d = maxdiff(outs[i], q)
+                t.resid("schedule", d)
+                if not d <= 1e-12:
+                    t.fail("C08|%s|schedule|call-does-not-integrate-over-the-step-it-was-given" % name,
+                           {"schedule": r, "base": base, "call": i, "got": outs[i], "want": q})
+                    break
+                q = outs[i]
+            if not abs(own_after - own * base) <= 1e-15:
+                t.fail("C08|%s|schedule|own-step-moved" % name, {"schedule": r, "base": base, "Dt-after": own_after})
     return t
 
 
@@ -243,6 +342,11 @@ def run(chk):
     if res.violated:
         chk.fail("C08|spec|%s" % res.violated, {"tlc": res.output[-2000:]})
     core.merge(chk, core.pmap(replay_cases, res.out_records))
+    res = tlc.run_tlc("MC_StepSource", core.spec_cfg("MC_StepSource"), timeout=600)
+    chk.add_tlc("StepSource[own step x call schedules of length <= 3]", res)
+    if res.violated:
+        chk.fail("C08|spec|%s" % res.violated, {"tlc": res.output[-2000:]})
+    core.merge(chk, core.pmap(replay_schedules, res.out_records))
     core.merge(chk, [in_range(chk.seed, 40 if quick else 1500)])
 
 
